@@ -341,4 +341,28 @@ def slowPathMirror (s : Bytes) : FloatRes :=
     let r := floatBits d
     ⟨r.bits, if r.ovf then some .range else none⟩
 
+/-! ### the fully mirrored parser: `atof64` / `ParseFloat` / reader `atof` with the mirrored slow path -/
+
+/-- `atof64` with `slowPathMirror` in place of the specified slow path -/
+def atof64Mirror (s : Bytes) : FloatRes :=
+  match special s with
+  | some v => ⟨v, none⟩
+  | none =>
+    let r := readFloat s
+    if r.hex && r.ok then atofHex r.mant r.exp r.neg r.trunc
+    else
+      let fast : Option F64.Bits :=
+        if r.ok && !r.trunc then atof64exact r.mant r.exp r.neg else none
+      match fast with
+      | some f => ⟨f, none⟩
+      | none => slowPathMirror s
+
+def parseFloatMirror (s : Bytes) : FloatRes :=
+  if !underscoreOK s then ⟨0, some .syntax⟩ else atof64Mirror s
+
+def readerAtofMirror (x : Bytes) : FloatRes :=
+  match atofLoop x 0 with
+  | some val => ⟨F64.ofInt val, none⟩
+  | none => parseFloatMirror x
+
 end Num
